@@ -5,7 +5,7 @@
 set -u
 . /verif/env.sh
 id=$1; pkg=$2; demo=$3; pat=$4
-wt=/tmp/seed/$id/wt; out=/tmp/seed/$id/out
+base=${SEEDBASE:-/tmp/seed}; wt=$base/$id/wt; out=$base/$id/out
 H=$(git -C /repo rev-parse HEAD)
 git -C $wt checkout -q -- . ; git -C $wt ls-files --others --exclude-standard | sed "s|^|$wt/|" | xargs -r rm -f
 git -C $wt checkout -q --detach $H || exit 2
